@@ -541,7 +541,8 @@ def run(ctx):
             "trace_header": 0, "adc_shifts": 0, "rcxy": 0, "map_texts": 0, "map_texts_malformed": 0,
             "map_texts_valueerror": 0, "map_texts_ambiguous_skipped": 0, "npultra_geom_maps": 0,
             "file_texts": 0, "file_texts_raise": 0, "file_texts_nogeometry": 0, "file_texts_crlf": 0,
-            "file_texts_duplicate_map": 0, "file_texts_fallback_typed": 0, "nidq_metas": 0, "unsupported_arguments": 0, "nc_argument": 0, "reader_without_meta": 0,
+            "file_texts_duplicate_map": 0, "file_texts_fallback_typed": 0, "nidq_metas": 0, "purity_queries": 0, "purity_mutations": 0,
+            "purity_followups": 0, "unsupported_arguments": 0, "nc_argument": 0, "reader_without_meta": 0,
             "dense_layout_direct": 0, "rcxy_scalar_or_typed": 0}
     nontrivial = set()
     samples = []
@@ -692,6 +693,8 @@ def run(ctx):
             evaluations += run_parser(ctx, inputs, outputs, descr, dist)
             evaluations += run_npultra_geom(ctx, inputs, outputs, descr, dist, tdir)
             evaluations += run_files(ctx, inputs, outputs, descr, dist, tdir)
+            # last: under a defect these sequences leave the library's own state modified
+            evaluations += run_purity(ctx, dist, tdir)
         except AbortRun:
             ctx.fail("implementation calls keep running into the %d s limit (hang); generation stopped" % CASE_LIMIT_S,
                      {"fn": "time limit"}, {"clause": "exception"})
@@ -1299,6 +1302,176 @@ def run_files(ctx, inputs, outputs, descr, dist, tdir):
     return nev
 
 
+# ---------------------------------------------------------------------------
+# purity: results are fresh arrays, and writing into them changes no later result
+# ---------------------------------------------------------------------------
+def _arrays(obj, depth=0):
+    """every ndarray reachable from a result / a module attribute (dict, list, tuple; depth <= 3)"""
+    out = []
+    if isinstance(obj, type) or callable(obj):
+        return out
+    if isinstance(obj, np.ndarray):
+        out.append(obj)
+    elif depth < 3:
+        if hasattr(obj, "keys") and hasattr(obj, "values"):
+            for v in list(obj.values()):
+                out += _arrays(v, depth + 1)
+        elif isinstance(obj, (list, tuple)):
+            for v in obj:
+                out += _arrays(v, depth + 1)
+    return out
+
+
+def _snapshot(obj):
+    """value of a result, independent of the arrays it is made of"""
+    if isinstance(obj, np.ndarray):
+        return ("arr", str(obj.dtype), obj.shape, obj.tolist())
+    if hasattr(obj, "keys") and hasattr(obj, "values"):
+        return ("dict", [(str(k), _snapshot(obj[k])) for k in obj.keys()])
+    if isinstance(obj, (list, tuple)):
+        return ("seq", [_snapshot(v) for v in obj])
+    return ("val", repr(obj))
+
+
+def _mutate(obj, how):
+    """write into every array of a result, in place; -> number of arrays written"""
+    n = 0
+    for a in _arrays(obj):
+        if not a.flags.writeable or a.size == 0:
+            continue
+        try:
+            if how == 0:
+                a += 384
+            elif how == 1:
+                a.fill(7)
+            else:
+                a[...] = np.sort(a, axis=None).reshape(a.shape)[::-1] if a.ndim == 1 else a + 1
+                a *= 3
+            n += 1
+        except Exception:
+            pass
+    return n
+
+
+def purity_queries(tdir):
+    """name -> zero-argument query; every public way of asking for a layout, an ADC table or a geometry"""
+    import neuropixel
+    import spikeglx
+    rng_sites = {"NP1": [(0, 1, 7, 1), (0, 0, 7, 1), (0, 1, 3, 1), (0, 0, 120, 1)],
+                 "NP2.4": [(2, 0, 9, 1), (0, 1, 9, 1), (2, 1, 9, 0), (1, 0, 300, 1), (0, 0, 9, 1)]}
+    files = {}
+    k = 0
+    for gen, sites in rng_sites.items():
+        for enc in (0, 1):
+            import random
+            case = make_case(random.Random(k), 600000 + k, gen, sites, enc, None, kind="purity")
+            f = tdir / ("p%d.ap.meta" % k)
+            f.write_text(meta_text(case))
+            files[(gen, enc)] = f
+            k += 1
+    import random
+    case = make_case(random.Random(99), 600099, "NP2.1", [], 2, None, kind="purity", nsaved=384)
+    fdef = tdir / "pdef.ap.meta"
+    fdef.write_text(meta_text(case))
+    fbin = tdir / "pnometa.bin"
+    fbin.write_bytes(bytes(384 * 2 * 4))
+    mds = {k_: spikeglx.read_meta_data(f) for k_, f in files.items()}
+    mddef = spikeglx.read_meta_data(fdef)
+    q = {}
+    for ver, ns in ((1, 1), (2, 1), (2.4, 4), ("NPultra", 1)):
+        q["trace_header(%r,%r)" % (ver, ns)] = lambda ver=ver, ns=ns: neuropixel.trace_header(version=ver, nshank=ns)
+        q["dense_layout(%r,%r)" % (ver, ns)] = lambda ver=ver, ns=ns: neuropixel.dense_layout(version=ver, nshank=ns)
+    for ver, nc in ((1, 384), (2, 384), (2.4, 100), ("NPultra", 12)):
+        q["adc_shifts(%r,%r)" % (ver, nc)] = lambda ver=ver, nc=nc: neuropixel.adc_shifts(version=ver, nc=nc)
+    q["split_trace_header(trace_header(2.4,4),2)"] = \
+        lambda: neuropixel.split_trace_header(neuropixel.trace_header(2.4, 4), shank=2)
+    q["rc2xy"] = lambda: neuropixel.rc2xy(np.arange(5), np.arange(5) % 2, version=2)
+    q["xy2rc"] = lambda: neuropixel.xy2rc(np.array([27, 59]), np.array([20, 35]), version=2.4)
+    for (gen, enc), md in mds.items():
+        for srt in (False, True):
+            q["geometry_from_meta(%s,enc%d,sort=%s)" % (gen, enc, srt)] = \
+                lambda md=md, srt=srt: spikeglx.geometry_from_meta(md, return_index=True, sort=srt)
+        q["Reader(%s,enc%d).geometry" % (gen, enc)] = \
+            lambda f=files[(gen, enc)]: (lambda sr: (sr.geometry, sr.raw_channel_order))(spikeglx.Reader(f, open=False))
+        q["read_geometry(%s,enc%d)" % (gen, enc)] = lambda f=files[(gen, enc)]: spikeglx.read_geometry(f)
+    q["geometry_from_meta(no table)"] = lambda: spikeglx.geometry_from_meta(mddef, return_index=True)
+    q["Reader(no table).geometry"] = lambda: spikeglx.Reader(fdef, open=False).geometry
+    q["Reader(no meta file).geometry"] = lambda: spikeglx.Reader(fbin, open=False).geometry
+    q["_map_channels_from_meta"] = lambda: spikeglx._map_channels_from_meta(mds[("NP2.4", 0)])
+    return q
+
+
+def module_arrays():
+    import neuropixel
+    import spikeglx
+    out = []
+    for mod in (neuropixel, spikeglx):
+        for name, v in list(vars(mod).items()):
+            if name.startswith("__") or isinstance(v, type(np)):
+                continue
+            for a in _arrays(v):
+                out.append(("%s.%s" % (mod.__name__, name), a))
+    return out
+
+
+def purity_failures(ctx, tdir, dist=None):
+    """-> list of (message, description).  The functions of the property are pure: the theorems are about values,
+    these sequences validate that nothing the library hands out is shared with its own state or with another
+    result, so that a caller writing into a result cannot change what the library answers later."""
+    bad = []
+    q = purity_queries(tdir)
+    names = list(q)
+    base = {n: _snapshot(q[n]()) for n in names}                 # the answers of a process nobody has written into
+    for i, n in enumerate(names):
+        try:
+            r1, r2 = q[n](), q[n]()
+        except Exception as e:
+            bad.append(("%s raises %r (after the earlier writes into results)" % (n, e),
+                        {"fn": "purity sequence", "query": n}))
+            continue
+        a1, a2 = _arrays(r1), _arrays(r2)
+        if any(np.shares_memory(x, y) for x in a1 for y in a2):
+            bad.append(("two results of %s share memory" % n, {"fn": "purity sequence", "query": n}))
+        for mname, m in module_arrays():
+            if any(np.shares_memory(x, m) for x in a1):
+                bad.append(("a result of %s shares memory with the module attribute %s" % (n, mname),
+                            {"fn": "purity sequence", "query": n, "module_attribute": mname}))
+                break
+        nm = _mutate(r1, i % 3)
+        if dist is not None:
+            dist["purity_queries"] += 1
+            dist["purity_mutations"] += nm
+        if _snapshot(r2) != base[n]:
+            bad.append(("writing into one result of %s changed another result of the same call" % n,
+                        {"fn": "purity sequence", "mutated": n, "then": n + " (earlier result)"}))
+        # after the write: the same question, its neighbours, and a rotating selection of all others
+        follow = [n] + [names[(i + k) % len(names)] for k in (1, 2, 3, 7, 11)] + \
+                 [m_ for m_ in names if m_.startswith(("trace_header(1", "adc_shifts(1", "geometry_from_meta(NP1,enc0,sort=True",
+                                                       "geometry_from_meta(no table"))]
+        for m_ in dict.fromkeys(follow):
+            if dist is not None:
+                dist["purity_followups"] += 1
+            try:
+                now = _snapshot(q[m_]())
+            except Exception as e:
+                now = ("raised", repr(e))
+            if now != base[m_]:
+                bad.append(("after writing in place (%s) into every array returned by %s, %s answers differently" % (
+                    ["+= 384", "fill(7)", "reverse sort, *= 3"][i % 3], n, m_),
+                    {"fn": "purity sequence", "mutated": n, "how": i % 3, "then": m_,
+                     "now": str(now)[:200]}))
+                break
+    return bad
+
+
+def run_purity(ctx, dist, tdir):
+    d = {"fn": "purity sequence"}
+    with guard(ctx, d, "purity sequence"):
+        for msg, dd in purity_failures(ctx, tdir, dist)[:20]:
+            ctx.fail(msg, dd, {"clause": "purity"})
+    return 0        # implementation-only sequences: counted in input_distribution, not as model evaluations
+
+
 def replay(ctx, data):
     inp = data.get("input") or (data.get("correspondence_disagreements") or [{}])[0].get("input")
     if not inp:
@@ -1327,6 +1500,17 @@ def replay(ctx, data):
                 0, [5, 1 if srt else 0] + [ord(c) for c in inp["text"]], out)])
             print("kernel-evaluated model agrees with implementation:", not ids)
             return 1 if ids else 0
+        finally:
+            shutil.rmtree(tdir, ignore_errors=True)
+    if inp.get("fn") == "purity sequence":
+        tdir = common.tmpdir("C08_")
+        try:
+            bad = purity_failures(ctx, tdir)
+            print("recorded sequence:", inp)
+            for msg, dd in bad[:10]:
+                print("FAILS:", msg)
+            print("purity sequences failing now:", len(bad))
+            return 1 if bad else 0
         finally:
             shutil.rmtree(tdir, ignore_errors=True)
     if inp.get("fn") == "_map_channels_from_meta":
